@@ -237,10 +237,17 @@ def playback(scratch, config, full_name, module_file):
     cmd = kani_cmd(config, ["--output-format", "terse", "--exact", "--harness", full_name,
                             "-Z", "concrete-playback", "--concrete-playback=print"])
     rc, out, _ = run(cmd, cwd=scratch, timeout=1800)
-    m = re.search(r"```\n(.*?)```", out, re.S)
-    if not m or "kani_concrete_playback_" not in m.group(1):
+    blocks = [b for b in re.findall(r"```\n(.*?)```", out, re.S) if "kani_concrete_playback_" in b]
+    if not blocks:
         return {"generated": False, "kani_output": _tail(out)}
-    code = m.group(1)
+    # Kani prints one test per reported check; prefer the one generated for a failed assertion / panic over the
+    # one generated for a satisfied cover (e.g. the reach-end marker)
+    def _rank(b):
+        m2 = re.search(r"Check for `([^`]*)`", b)
+        kind = m2.group(1) if m2 else ""
+        return 0 if kind in ("assertion", "panic", "safety_check", "memory-safety", "overflow") or "assert" in kind else (2 if "cover" in kind else 1)
+    blocks.sort(key=_rank)
+    code = blocks[0]
     test = re.search(r"fn (kani_concrete_playback_\w+)", code).group(1)
     return run_playback_test(scratch, config, module_file, code, test, short)
 
